@@ -32,6 +32,9 @@ func genC02(g gen.G) C02Case {
 	if g.Chance(35) {
 		o.Edits = 0
 	}
+	if g.Chance(40) {
+		o.Schema.HookPct = 45 // edit ranges of hook candidates are computed from raw text
+	}
 	return C02Case{World: g.World(o)}
 }
 
